@@ -1547,7 +1547,7 @@ package ast
 //@        ite(e.FunctionCall == nil && e.ExpressionAtom != nil && len(e.VariableName) == 0, ite(e.Negated, "!", "") + fn_GetSnapshot_0(e.ExpressionAtom),
 //@        ite(e.FunctionCall != nil && e.ExpressionAtom != nil, fn_GetSnapshot_0(e.ExpressionAtom) + "->" + fn_GetSnapshot_0(e.FunctionCall),
 //@        ite(len(e.VariableName) > 0 && e.ExpressionAtom != nil, fn_GetSnapshot_0(e.ExpressionAtom) + "->MV:" + e.VariableName, ""))))))
-//@        + ite(e.ArrayMapSelector != nil && e.ExpressionAtom != nil, fn_GetSnapshot_0(e.ExpressionAtom) + "-[]>" + fn_GetSnapshot_0(e.ArrayMapSelector), "") + ")"
+//@        + ite(e.ArrayMapSelector != nil && e.ExpressionAtom != nil, "-[]>" + fn_GetSnapshot_0(e.ArrayMapSelector), "") + ")"
 //@ func (e *Variable) GetSnapshot() (s)
 //@   serves C07 C20
 //@   opt strite=1
